@@ -74,7 +74,7 @@ def body(cfg):
         org = [None] * dim
         for m in range(dim):
             a, _sg = orient[m]
-            o = S.real(f"o{a}", lo=-(10**10), hi=10**10)
+            o = S.real(f"o{a}", lo=-(10**10), hi=10**10, default=lambda rng: round(rng.uniform(-100, 100) * 8) / 8)
             S.assume(S.and_(S.le(o, 10**6 * h[m]), S.le(-(10**6) * h[m], o)), check=False)
             org[a] = o
     else:
